@@ -13,7 +13,7 @@ use projrun::*;
 use verif_harness::*;
 
 const POOL: [&str; 6] = ["A", "B", "C", "D", "E", "F"];
-const REGS: [&str; 4] = ["R3", "sp", "LR", "Msp"];
+const REGS: [&str; 14] = ["R3", "sp", "LR", "Msp", "CONTROL", "primask", "IAPSR", "eapsr", "IEPSR", "xPSR", "r12", "PC", "apsr", "Psp"];
 
 #[derive(Clone, Debug, PartialEq)]
 enum St { Addr(u32), Const(String, i64), Label(String), Global(String), Import(String), Export(String), Include(String), Use(String) }
